@@ -24,7 +24,8 @@ EXPLANATION = (
     "code point 0..31, is applied with re.sub to both halves of splitext, and create_stream stores the sanitised "
     "name as suggested_file_name (the raw name only as stream_name). Cipher siblings agree on AES-CBC/PKCS7 wiring."
 )
-TECHNIQUE = "static analysis: constant folding of the chunk bound, def-use dependence of hashes on committed fields, guard dominance of the load path, regex-AST grammar check, sibling agreement"
+EXACTNESS = "Second pass (DESIGN.md §10, exactness / completeness halves) — reading starts at 0 and every chunk is yielded and appended; descriptor built from the very key and blob list and returned with its sd hash; hash entry of a blob dict exactly for data blobs; serialiser chosen by the same test as the hash; loader accepts *every* consistent descriptor (refusals depend on the five consistency tests only)."
+TECHNIQUE = "static analysis: constant folding of the chunk bound, def-use dependence of hashes on committed fields, guard dominance of the load path, regex-AST grammar check, sibling agreement; exact fact-set comparison of the tests dominating each effect and refusal (effect / refusal tables), fall-through path queries"
 NOT_DECIDED = "byte-for-byte decrypt round trip, padding behaviour at AES block boundaries, JSON canonical form (runtime behaviour of cryptography/json); DEL and C1 controls are outside the 0..31 reading of 'control character'"
 ASSUMPTIONS = ["PKCS7 padding adds between 1 and 16 bytes", "os.path.splitext / basename behave as documented"]
 
